@@ -282,7 +282,7 @@ def run(ctx):
     # 2. code -> spec
     rec = Recorder(ctx)
     rng = ctx.rng
-    nhist = ctx.pick(16, 350)
+    nhist = ctx.pick(16, 200)
     adapters = list(ADAPTER_MODES)
     for hno in range(nhist):
         random_history(rec, rng, adapters[hno % len(adapters)], rng.randint(*ctx.pick((20, 55), (25, 70))))
